@@ -9,7 +9,7 @@ from common import Driver, DriverFailure, digest
 
 LEVEL = "proof"
 MANIFEST = dict(
-    text='Machine-checked Lean 4 proof over a hand model of GeckoAsyncLocator.discover / _async_on_discovered, the hello consume loop '
+    text='Machine-checked Lean 4 proof over a hand model of GeckoAsyncLocator.discover / _async_on_discovered, the hello consume loop  Session 4: the blocking locator runs for real (its engine and retry threads, its waiting loop, a scripted OS socket, scaled waits) and the time at which start_discovery(True) returns is checked for five reply patterns.'
          'and GeckoHelloProtocolHandler.handle (waits from the regenerated config tables). For EVERY input sequence (arbitrary datagram '
          'bytes, arbitrary relative timing and order of the main loop, the consumer and the network, an event handler that may suspend '
          'arbitrarily long), by invariant induction: no identifier is listed twice; the list is exactly the first handled reply per '
@@ -595,6 +595,122 @@ def check_sync(ctx, n):
             return
 
 
+# ---------------------------------------------------------------------- the blocking locator, for real (threads, waiting loop)
+class _ScriptSock:
+    """stands in for the OS socket of the blocking locator: scripted replies become readable at their time (seconds after the socket
+    was created); everything else - the engine thread, the broadcast retry thread, the hello handler, the waiting loop - is real"""
+
+    def __init__(self, plan):
+        import time as _t
+        self.t0 = _t.monotonic()
+        self.plan = sorted(plan)
+        self.sent, self.closed = [], False
+
+    def settimeout(self, t):
+        pass
+
+    def setsockopt(self, *a):
+        pass
+
+    def close(self):
+        self.closed = True
+
+    def sendto(self, data, dest):
+        self.sent.append((data, dest))
+
+    def recvfrom(self, n):
+        import socket as pysocket
+        import time as _t
+        if self.plan and self.plan[0][0] <= _t.monotonic() - self.t0:
+            _, payload, addr = self.plan.pop(0)
+            return payload, addr
+        _t.sleep(0.005)
+        raise pysocket.timeout()
+
+
+SYNC_INITIAL, SYNC_TIMEOUT = 1.0, 2.2       # scaled waits for the real-thread runs (seconds)
+
+
+def sync_real_cases():
+    a, b, c = _ident(1), _ident(2), _ident(3)
+    A, B, C = ("10.0.0.11", 10022), ("10.0.0.12", 10022), ("10.0.0.13", 10022)
+    R = lambda i, n, at, addr: (at, reply(i, n), addr)
+    return [
+        # (name, constructor filter, replies, (earliest, latest) return time, identifiers listed)
+        ("requested-first-another-right-behind", {"spa_to_find": a}, [R(a, b"Spa A", 0.10, A), R(b, b"Spa B", 0.101, B)], (0.05, 0.65), None),
+        ("requested-first-another-right-behind:string-id", {"spa_to_find": a.decode("latin1")}, [R(a, b"Spa A", 0.10, A), R(b, b"Spa|B", 0.101, B), R(c, b"C", 0.102, C)], (0.05, 0.65), None),
+        ("requested-second", {"spa_to_find": b}, [R(a, b"Spa A", 0.10, A), R(b, b"Spa B", 0.20, B)], (0.15, 0.75), None),
+        ("no-filter-one-answers", {}, [R(a, b"Spa A", 0.10, A), R(a, b"Spa A", 0.15, A)], (SYNC_INITIAL - 0.05, SYNC_INITIAL + 0.6), [a]),
+        ("requested-never-answers", {"spa_to_find": c}, [R(a, b"Spa A", 0.10, A)], (SYNC_INITIAL - 0.05, SYNC_TIMEOUT + 0.6), None),
+    ]
+
+
+def run_sync_real(filt, plan):
+    """returns (seconds until start_discovery(True) returned, identifiers listed, socket closed, live helper threads)"""
+    import socket as pysocket
+    import threading
+    import time as _t
+    from geckolib.locator import GeckoLocator
+    from geckolib.config import GeckoConfig
+    socks = []
+    real_socket = pysocket.socket
+
+    def factory(*a, **k):
+        sk = _ScriptSock(plan)
+        socks.append(sk)
+        return sk
+    saved = (GeckoConfig.DISCOVERY_INITIAL_TIMEOUT_IN_SECONDS, GeckoConfig.DISCOVERY_TIMEOUT_IN_SECONDS)
+    before = set(threading.enumerate())
+    pysocket.socket = factory
+    GeckoConfig.DISCOVERY_INITIAL_TIMEOUT_IN_SECONDS, GeckoConfig.DISCOVERY_TIMEOUT_IN_SECONDS = SYNC_INITIAL, SYNC_TIMEOUT
+    try:
+        t0 = _t.monotonic()
+        loc = GeckoLocator("00000000-0000-0000-0000-000000000001", **filt)
+        loc.start_discovery(True)
+        took = _t.monotonic() - t0
+        ids = [d.identifier for d in loc.spas]
+        loc.complete()
+        _t.sleep(0.05)
+    finally:
+        pysocket.socket = real_socket
+        GeckoConfig.DISCOVERY_INITIAL_TIMEOUT_IN_SECONDS, GeckoConfig.DISCOVERY_TIMEOUT_IN_SECONDS = saved
+    live = [t for t in threading.enumerate() if t not in before and t.is_alive()]
+    return took, ids, all(sk.closed for sk in socks), len(live)
+
+
+def check_sync_real(ctx, only=None):
+    """the blocking locator's own waiting loop on real threads: when does `start_discovery(True)` RETURN"""
+    for name, filt, plan, (lo, hi), want_ids in sync_real_cases():
+        if only is not None and name != only:
+            continue
+        inp = {"kind": "sync-real", "case": name, "filter": {k: (v.hex() if isinstance(v, bytes) else v) for k, v in filt.items()},
+               "replies": [[t, p.hex(), list(a)] for t, p, a in plan], "initial_wait_s": SYNC_INITIAL, "timeout_s": SYNC_TIMEOUT}
+        bad = None
+        for attempt in range(2):                      # real time: a result outside the window is confirmed once before it counts
+            try:
+                took, ids, closed, live = run_sync_real(filt, list(plan))
+            except Exception as e:  # noqa
+                bad = ("raised", f"{type(e).__name__}: {e}")
+                break
+            ctx.count("evaluations")
+            if len(set(ids)) != len(ids) or (want_ids is not None and ids != want_ids):
+                bad = ("listed", [i.hex() for i in ids])
+                break
+            if not closed or live:
+                bad = ("left-behind", {"socket_closed": closed, "live_threads": live})
+                break
+            if lo <= took <= hi:
+                bad = None
+                break
+            bad = ("return-time", round(took, 2))
+        ctx.hist("sync_real", name if bad is None else name + ":" + bad[0])
+        if bad is not None:
+            what = {"return-time": f"returns between {lo} and {hi} s (requested spa answered -> at once; otherwise after the initial wait {SYNC_INITIAL} s once a spa "
+                                   f"has answered; always within the timeout {SYNC_TIMEOUT} s)",
+                    "listed": "each responding spa once", "left-behind": "endpoint closed, helper threads gone", "raised": "the run returns"}[bad[0]]
+            ctx.violation(f"sync-real:{bad[0]}:{name.split(':')[0]}", inp, what, bad[1])
+
+
 # ----------------------------------------------------------------------------------------------- run / replay
 D2_SCRIPT = {"responders": [_resp(1, b"Pool|Spa", {"0": [100]})], "arrivals": [], "filter": {}, "suspend_ms": [],
              "sched": {"seed": 0, "shuffle": False, "jitter_ms": 0}}
@@ -648,6 +764,7 @@ def run(ctx):
     if st["ConfigTables"] == "ok":
         correspondence(ctx, runs)
     check_sync(ctx, 200 if ctx.quick else 8000)
+    check_sync_real(ctx)
     fam, script, res = runs[2]
     ctx.sample({"script": {k: script[k] for k in ("responders", "filter", "suspend_ms", "sched")},
                 "observed": {k: res.get(k) for k in ("spas", "ret_ms", "consumer", "found")}, "log_head": res.get("log", [])[:8]})
@@ -668,6 +785,11 @@ def replay(inp):
             return False, "imports"
         except BaseException as e:  # noqa
             return True, f"{type(e).__name__}: {e}"
+    if inp.get("kind") == "sync-real":
+        from common import Ctx
+        c = Ctx("C15", "quick", 0)
+        check_sync_real(c, only=inp["case"])
+        return bool(c.violations), (c.violations[0]["observed"] if c.violations else "returns in time")
     if inp.get("kind") == "sync":
         case = inp["case"]
         results = run_sync(case)
